@@ -23,5 +23,7 @@ class VariableBoundBoundsMaxPropagator(VariableBoundMaxPropagator):
         
     def max(self):
 #        print("max: " + str(self.other.domain.range_l[-1][1]+self.offset))
+        if len(self.other.domain.range_l) == 0:
+            return None
         return (self.other.domain.range_l[-1][1]+self.offset)
     
